@@ -118,7 +118,10 @@ def unrep(x):
 # ----------------------------------------------------------------------------------------
 # iterable flavours
 # ----------------------------------------------------------------------------------------
-SRC_FLAVOURS = ["list", "tuple", "gen", "iter", "deque", "iterable", "altstream", "restream"]
+SRC_FLAVOURS = ["list", "tuple", "gen", "iter", "deque", "iterable", "altstream", "restream",
+                # Streams built directly on itertools objects / lazy_itertools Streams / other builtin iterators
+                "it.chain", "it.islice", "it.repeat", "it.count", "lit.chain", "lit.repeat", "lit.islice", "map", "range",
+                "substream"]
 REITERABLE = {"list", "tuple", "deque", "iterable", "restream"}
 
 
@@ -185,6 +188,71 @@ def iterable_of(xs, flavour, Stream):
         return stream_classes(Stream)[0](xs)
     if flavour == "restream":
         return stream_classes(Stream)[1](xs)
+    import itertools as it
+    from audiolazy import lazy_itertools as lit
+    h = len(xs) // 2
+    same = len(xs) >= 1 and all(x is xs[0] for x in xs)
+    run = len(xs) >= 1 and all(type(x) is int for x in xs) and all(b == a + 1 for a, b in zip(xs, xs[1:]))
+    if flavour == "it.chain":
+        return it.chain(xs[:h], xs[h:])
+    if flavour == "lit.chain":
+        return lit.chain(xs[:h], xs[h:])                 # a Stream over it.chain
+    if flavour == "it.islice":
+        return it.islice(it.chain(xs, it.repeat(_DECOY)), len(xs))
+    if flavour == "lit.islice":
+        return lit.islice(it.chain(xs, it.repeat(_DECOY)), len(xs))
+    if flavour == "it.repeat":                          # the FINITE repeat
+        return it.repeat(xs[0], len(xs)) if same else it.chain(*[it.repeat(x, 1) for x in xs])
+    if flavour == "lit.repeat":
+        return lit.repeat(xs[0], len(xs)) if same else lit.chain(*[it.repeat(x, 1) for x in xs])
+    if flavour == "it.count":
+        return it.islice(it.count(xs[0]), len(xs)) if run else it.islice(xs, None)
+    if flavour == "range":
+        return range(xs[0], xs[0] + len(xs)) if run else reversed(xs[::-1])
+    if flavour == "map":
+        return map(_ident, xs)
+    if flavour == "substream":                          # a plain Stream subclass (ControlStream-like: no override)
+        return _sub(Stream)(xs)
+    raise ValueError(flavour)
+
+
+def _ident(x):
+    return x
+
+
+_SUBS = {}
+
+
+def _sub(Stream):
+    if Stream not in _SUBS:
+        class SubStream(Stream):
+            """a subclass that overrides nothing but the constructor"""
+            def __init__(self, xs):
+                super(SubStream, self).__init__(xs)
+        _SUBS[Stream] = SubStream
+    return _SUBS[Stream]
+
+
+def endless_of(items, flavour):
+    """an endless iterable that yields `items` for ever"""
+    import itertools as it
+    from audiolazy import lazy_itertools as lit, ControlStream
+    if flavour == "it.repeat":
+        return it.repeat(items[0])
+    if flavour == "lit.repeat":
+        return lit.repeat(items[0])
+    if flavour == "control":
+        return ControlStream(items[0])
+    if flavour in (None, "it.cycle"):
+        return it.cycle(items)
+    if flavour == "lit.cycle":
+        return lit.cycle(items)
+    if flavour == "gen":
+        def forever():
+            while True:
+                for x in items:
+                    yield x
+        return forever()
     raise ValueError(flavour)
 
 
